@@ -25,7 +25,8 @@ pub fn judge_cancel_all(case: &ChanCase, run: &ChanRun) -> Option<(String, Strin
                     else if my_polls.iter().any(|p| p.call < cancel.ret && cancel.call < p.ret) { "inside-poll" }
                     else if my_polls.iter().filter(|p| p.ret < cancel.call).last().map(|p| p.res == PollRes::Pending).unwrap_or(false) { "parked" }
                     else { "holding-or-between-polls" };
-        if !c.ended {
+        // (a listener that left by itself -- dropped its stream after its quota of items -- is no longer there to be ended)
+        if !c.ended && c.dropped_at.is_none() {
             let what = if c.parked_at_quiescence { "parked-not-ended" } else { "not-ended" };
             return Some((format!("{k}/{what}/target={state}"), format!("cancel_all_streams() returned at {} but stream of consumer {ci} never answered end-of-stream ({what}); history: {}", cancel.ret, run.render())));
         }
@@ -59,17 +60,17 @@ impl Property for C07CancelAll {
     type Case = ChanCase;
     fn part(&self) -> &'static str { "cancel-all-sched" }
     fn strategy(&self, _tier: Tier) -> BoxedStrategy<ChanCase> {
-        case_strategy(Gen { kinds: &ALL_KINDS, max_streams: &[1, 2, 4, 8, 16], buffers: &[2, 4, 8, 16, 64], max_producers: 2, max_ops: 3, max_consumers: 3, retry: false, fresh_wakers: true, prefill: true, canceller: true, drop_on_end: true, origins: true, ..Default::default() })
+        case_strategy(Gen { kinds: &ALL_KINDS, max_streams: &[1, 2, 4, 8, 16], buffers: &[2, 4, 8, 16, 64], max_producers: 2, max_ops: 3, max_consumers: 3, retry: false, fresh_wakers: true, prefill: true, canceller: true, drop_on_end: true, origins: true, leavers: true, ..Default::default() })
             // (the Arc kinds block the sender -- sleeping -- when a listener's queue is full; a listener dropped during the run can be fed for ever by
             //  senders that raced with its removal [known finding R8]: there the streams are dropped after the run only)
             .prop_map(|mut c| { if c.kind.waits_when_full() { for k in c.consumers.iter_mut() { k.drop_on_end = false; } } c }).boxed()
     }
     fn decode(&self, u: &mut arbitrary::Unstructured<'_>) -> Option<ChanCase> {
-        let mut c = crate::props::uni::decode_chan(u, &Gen { kinds: &ALL_KINDS, max_streams: &[1, 2, 4, 8, 16], buffers: &[2, 4, 8, 16, 64], max_producers: 2, max_ops: 3, max_consumers: 3, retry: false, fresh_wakers: true, prefill: true, canceller: true, drop_on_end: true, origins: true, ..Default::default() })?;
+        let mut c = crate::props::uni::decode_chan(u, &Gen { kinds: &ALL_KINDS, max_streams: &[1, 2, 4, 8, 16], buffers: &[2, 4, 8, 16, 64], max_producers: 2, max_ops: 3, max_consumers: 3, retry: false, fresh_wakers: true, prefill: true, canceller: true, drop_on_end: true, origins: true, leavers: true, ..Default::default() })?;
         if c.kind.waits_when_full() { for k in c.consumers.iter_mut() { k.drop_on_end = false; } }
         Some(c)
     }
-    fn cases(&self, tier: Tier) -> u32 { match tier { Tier::Quick => 6_000, Tier::Thorough => 120_000 } }
+    fn cases(&self, tier: Tier) -> u32 { match tier { Tier::Quick => 24_000, Tier::Thorough => 240_000 } }
     fn run(&self, case: &ChanCase) -> RunReport {
         let run = execute(case, Epilogue { drain: true, recreate_probe: true, ..Default::default() });
         let judged = if run.end == EndState::Completed { judge_cancel_all(case, &run) } else { None };
@@ -88,7 +89,7 @@ impl Property for C07CancelAll {
         finish(case, &run, classes, nontrivial, judged)
     }
     fn rule(&self) -> String {
-        "generated: any of the 11 channel kinds x configuration x 1..3 driven streams (all created before the run) x 1..2 producers x a canceller thread calling cancel_all_streams() after 0..11 steps x schedule; \
+        "generated: any of the 11 channel kinds x configuration x 1..3 driven streams (all created before the run; some leave by themselves -- drop their stream -- after 1..3 items, possibly while the request is being served) x 1..2 producers x a canceller thread calling cancel_all_streams() after 0..11 steps x schedule; \
          oracle: at quiescence every stream has answered end-of-stream (a stream still parked is a violation -- decided, no timeout), nothing is yielded after end-of-stream, yielded payloads are accepted ones (Uni: at most once), \
          after dropping the streams running_streams_count()==0 and MAX_STREAMS streams can be created again (ids reusable, count exact); \
          non-trivial: the request landed while a target was inside poll_next or parked".into()
@@ -109,7 +110,7 @@ impl Property for C16Retry {
             .boxed()
     }
     fn decode(&self, u: &mut arbitrary::Unstructured<'_>) -> Option<ChanCase> { crate::props::uni::decode_chan(u, &Gen { kinds: &UNI_KINDS, max_streams: &[1, 2], buffers: &[2, 4], max_producers: 3, max_ops: 3, max_consumers: 1, retry: true, prefill: true, origins: true, ..Default::default() }) }
-    fn cases(&self, tier: Tier) -> u32 { match tier { Tier::Quick => 5_000, Tier::Thorough => 100_000 } }
+    fn cases(&self, tier: Tier) -> u32 { match tier { Tier::Quick => 15_000, Tier::Thorough => 150_000 } }
     fn run(&self, case: &ChanCase) -> RunReport {
         let run = execute(case, Epilogue { drain: true, capacity_probe: true, ..Default::default() });
         let k = case.kind.short();
@@ -186,7 +187,7 @@ impl Property for C20Suspended {
             })
             .boxed()
     }
-    fn cases(&self, tier: Tier) -> u32 { match tier { Tier::Quick => 6_000, Tier::Thorough => 120_000 } }
+    fn cases(&self, tier: Tier) -> u32 { match tier { Tier::Quick => 24_000, Tier::Thorough => 240_000 } }
     fn run(&self, case: &ChanCase) -> RunReport {
         let run = execute(case, Epilogue { drain: true, ..Default::default() });
         let k = case.kind.short();
@@ -303,7 +304,7 @@ impl Property for C17Churn {
             .boxed()
     }
     fn decode(&self, u: &mut arbitrary::Unstructured<'_>) -> Option<ChanCase> { crate::props::uni::decode_chan(u, &Gen { kinds: &MULTI_KINDS, max_streams: &[4], buffers: &[8], max_producers: 1, max_ops: 6, max_consumers: 4, min_consumers: 3, churn: true, origins: true, ..Default::default() }) }
-    fn cases(&self, tier: Tier) -> u32 { match tier { Tier::Quick => 6_000, Tier::Thorough => 120_000 } }
+    fn cases(&self, tier: Tier) -> u32 { match tier { Tier::Quick => 24_000, Tier::Thorough => 240_000 } }
     fn run(&self, case: &ChanCase) -> RunReport {
         let run = execute(case, Epilogue { drain: true, capacity_probe: case.kind.is_ogre_arc(), ..Default::default() });
         // the live-list *mutation window* of a listener creation / removal -- from the entry of create_stream_id() / report_stream_dropped() (before the
@@ -409,7 +410,7 @@ impl Property for C05Sched {
             })
             .boxed()
     }
-    fn cases(&self, tier: Tier) -> u32 { match tier { Tier::Quick => 6_000, Tier::Thorough => 120_000 } }
+    fn cases(&self, tier: Tier) -> u32 { match tier { Tier::Quick => 20_000, Tier::Thorough => 200_000 } }
     fn run(&self, case: &ChanCase) -> RunReport {
         let probe = !case.leftovers && !case.kind.waits_when_full();
         let run = execute(case, Epilogue { drain: !case.leftovers, capacity_probe: probe, ..Default::default() });
@@ -467,7 +468,7 @@ impl Property for C06EndAll {
         case_strategy(Gen { kinds: &ALL_KINDS, max_streams: &[1, 2, 4, 8, 16], buffers: &[2, 4, 8, 16, 64], max_producers: 2, max_ops: 3, max_consumers: 3, retry: true, fresh_wakers: false, prefill: true, origins: true, end_all: true, ..Default::default() })
     }
     fn decode(&self, u: &mut arbitrary::Unstructured<'_>) -> Option<ChanCase> { crate::props::uni::decode_chan(u, &Gen { kinds: &ALL_KINDS, max_streams: &[1, 2, 4, 8, 16], buffers: &[2, 4, 8, 16, 64], max_producers: 2, max_ops: 3, max_consumers: 3, retry: true, fresh_wakers: false, prefill: true, origins: true, end_all: true, ..Default::default() }) }
-    fn cases(&self, tier: Tier) -> u32 { match tier { Tier::Quick => 4_000, Tier::Thorough => 80_000 } }
+    fn cases(&self, tier: Tier) -> u32 { match tier { Tier::Quick => 14_000, Tier::Thorough => 140_000 } }
     fn run(&self, case: &ChanCase) -> RunReport {
         let run = execute(case, Epilogue { drain: true, ..Default::default() });
         let judged = if run.end == EndState::Completed { judge_end_all(case, &run) } else { None };
@@ -551,7 +552,7 @@ impl Property for C07EndOne {
         case_strategy(Gen { kinds: &ALL_KINDS, max_streams: &[1, 2, 4, 8, 16], buffers: &[2, 4, 8, 16, 64], max_producers: 2, max_ops: 3, max_consumers: 3, retry: true, fresh_wakers: true, prefill: true, origins: true, end_one: true, ..Default::default() })
     }
     fn decode(&self, u: &mut arbitrary::Unstructured<'_>) -> Option<ChanCase> { crate::props::uni::decode_chan(u, &Gen { kinds: &ALL_KINDS, max_streams: &[1, 2, 4, 8, 16], buffers: &[2, 4, 8, 16, 64], max_producers: 2, max_ops: 3, max_consumers: 3, retry: true, fresh_wakers: true, prefill: true, origins: true, end_one: true, ..Default::default() }) }
-    fn cases(&self, tier: Tier) -> u32 { match tier { Tier::Quick => 4_000, Tier::Thorough => 80_000 } }
+    fn cases(&self, tier: Tier) -> u32 { match tier { Tier::Quick => 12_000, Tier::Thorough => 120_000 } }
     fn run(&self, case: &ChanCase) -> RunReport {
         let run = execute(case, Epilogue { drain: true, ..Default::default() });
         let judged = if run.end == EndState::Completed { judge_end_one(case, &run) } else { None };
@@ -588,7 +589,7 @@ impl Property for C08Sched {
         case_strategy(Gen { kinds: &RESERVE_KINDS, max_streams: &[1, 2], buffers: &[2, 4, 8], max_producers: 1, max_ops: 8, max_consumers: 2, retry: false, origins: true, prefill: true, reserve_ops: true, ..Default::default() })
     }
     fn decode(&self, u: &mut arbitrary::Unstructured<'_>) -> Option<ChanCase> { crate::props::uni::decode_chan(u, &Gen { kinds: &RESERVE_KINDS, max_streams: &[1, 2], buffers: &[2, 4, 8], max_producers: 1, max_ops: 8, max_consumers: 2, retry: false, origins: true, prefill: true, reserve_ops: true, ..Default::default() }) }
-    fn cases(&self, tier: Tier) -> u32 { match tier { Tier::Quick => 5_000, Tier::Thorough => 100_000 } }
+    fn cases(&self, tier: Tier) -> u32 { match tier { Tier::Quick => 15_000, Tier::Thorough => 150_000 } }
     fn run(&self, case: &ChanCase) -> RunReport {
         let run = execute(case, Epilogue { drain: true, capacity_probe: true, ..Default::default() });
         let mut judged = if run.end == EndState::Completed { if case.kind.is_uni() { uni::judge_delivery_uni(case, &run) } else { uni::judge_delivery_multi(case, &run) } } else { None };
